@@ -10,7 +10,8 @@
    on disk after the call) is established by the fault-injection runs of
    harness/props/c14.py on the real code, not proved. *)
 From Coq Require Import ZArith List Bool Permutation.
-From CTM Require Import Base.Sx Model.Pool Model.RunEffects Proofs.PoolP Proofs.RunEffectsP Proofs.SelPoolP.
+From CTM Require Import Base.Sx Model.Pool Model.RunEffects Model.ExitCode Proofs.PoolP Proofs.RunEffectsP Proofs.SelPoolP
+  Proofs.ExitCodeP.
 Import ListNotations.
 
 (* For both inspectors (variant = true: winnow_process_dict, false: winnow_process_list),
@@ -45,17 +46,28 @@ Print Assumptions c14_single_failure_reported.
    exit_code_of; the tie forks real workers and compares): a raising worker 1, a killed worker
    minus the signal number, a worker that calls os._exit(k) the low 8 bits of k.  So killed and
    raising workers always have a non-zero code; an exiting worker has one iff k is not a multiple
-   of 256 -- in particular for every k in 1..255, where the code is k itself *)
+   of 256 -- in particular for every k in 1..255, where the code is k itself.
+   Domain (audit 3, item 13; Model/ExitCode.v, every figure observed on real forked workers):
+   - Exits k: k is a C int, -2^31 <= k < 2^31 (exit_arg_ok).  Outside, os._exit raises
+     OverflowError inside the worker and the exit code is 1 (as Raises), whereas
+     exit_code_of (Exits (2^31)) = 0: c14_example_exit_overflow_excluded;
+   - Killed s: s is a signal that TERMINATES a Python worker (terminating_signal: 1..64 without
+     SIGINT 2 -> KeyboardInterrupt, exit code 1; SIGPIPE 13, SIGXFSZ 25, SIGCHLD 17, SIGCONT 18,
+     SIGURG 23, SIGWINCH 28 -> ignored, the worker goes on and exits 0; SIGSTOP 19, SIGTSTP 20,
+     SIGTTIN 21, SIGTTOU 22 -> the worker is stopped and does not terminate).  For the others
+     the exit code is -s, negative.  (The former clause `0 < s -> exit_code_of m < 0` held for
+     every positive s, the ignored and stopping signals included.) *)
 Theorem c14_abnormal_codes : forall m,
   match m with
   | NoFail => exit_code_of m = 0%Z
   | Raises => exit_code_of m <> 0%Z
-  | Exits k => (0 <= exit_code_of m < 256)%Z /\
+  | Exits k => exit_arg_ok k ->
+               (0 <= exit_code_of m < 256)%Z /\
                (k mod 256 <> 0 -> exit_code_of m <> 0)%Z /\
                (0 < k < 256 -> exit_code_of m = k /\ exit_code_of m <> 0)%Z
-  | Killed s => ((0 < s)%Z -> (exit_code_of m < 0)%Z)
+  | Killed s => terminating_signal s = true -> (exit_code_of m = - s /\ exit_code_of m < 0)%Z
   end.
-Proof. exact exit_code_nonzero. Qed.
+Proof. exact exit_code_nonzero_guarded. Qed.
 Print Assumptions c14_abnormal_codes.
 
 (* os._exit(256) cannot be told from a normal exit by ANY parent: the kernel hands out the low 8
@@ -406,6 +418,26 @@ Example c14_example_final_drain :
   let r := run_selection_pool W 2 [] [0%nat] [] in
   fst r = POk /\ ss_started (snd r) = [0%nat] /\ ss_completed (snd r) = [] /\ ss_running (snd r) = [].
 Proof. exact final_drain_does_not_complete. Qed.
+
+(* the domain of c14_abnormal_codes.  os._exit: 2^31 and -2^31-1 are excluded - there the real
+   worker dies of OverflowError with exit code 1 while the model says 0 -, 2^31-1 (-> 255) and
+   -2^31 (-> 0) are inside, as observed.  Signals: KILL 9, TERM 15, USR1 10 (the ones the tie
+   sends), SEGV 11 and the real-time signal 64 terminate; CHLD 17, CONT 18, STOP 19, URG 23,
+   WINCH 28, INT 2 do not, although exit_code_of (Killed 17) = -17 *)
+Example c14_example_exit_overflow_excluded :
+  ~ exit_arg_ok (2 ^ 31) /\ exit_code_of (Exits (2 ^ 31)) = 0%Z /\
+  exit_arg_ok (2 ^ 31 - 1) /\ exit_code_of (Exits (2 ^ 31 - 1)) = 255%Z /\
+  exit_arg_ok (- 2 ^ 31) /\ exit_code_of (Exits (- 2 ^ 31)) = 0%Z /\
+  ~ exit_arg_ok (- 2 ^ 31 - 1).
+Proof. exact exit_overflow_excluded. Qed.
+Example c14_example_signals :
+  terminating_signal 9 = true /\ terminating_signal 15 = true /\ terminating_signal 10 = true /\
+  terminating_signal 11 = true /\ terminating_signal 64 = true /\
+  terminating_signal 17 = false /\ terminating_signal 18 = false /\ terminating_signal 19 = false /\
+  terminating_signal 23 = false /\ terminating_signal 28 = false /\ terminating_signal 2 = false /\
+  terminating_signal 0 = false /\ terminating_signal 65 = false /\
+  exit_code_of (Killed 17) = (-17)%Z.
+Proof. exact signal_examples. Qed.
 
 (* the excluded input of c14_abnormal_codes is exactly where the parent sees nothing: a pool whose
    only worker calls os._exit(256) drains cleanly; with os._exit(255) it raises *)
